@@ -457,7 +457,7 @@ class E1:
                 p = V(0); env[i.id] = ("pint", p)
             elif op == "icmp":
                 a, c2 = V(0), V(1)
-                env[i.id] = ("cmp", i["pred"], a, c2)
+                env[i.id] = ("cmp", i["pred"], a, c2, type_bits(i.ops[0]["t"]) or 64)
             elif op == "select":
                 c = V(0)
                 pieces = list(self.cond_pieces(c, path))
@@ -554,7 +554,7 @@ class E1:
     def cond_pieces(self, c, path):
         if is_c(c): return [(path.lo, path.hi, bool(c[1]))]
         if c[0] != "cmp": raise Unsupported("condition %r" % (c,))
-        _, pred, a, b2 = c
+        _, pred, a, b2 = c[:4]; cw = c[4] if len(c) > 4 else 64
         if isinstance(a, Ptr) or isinstance(b2, Ptr): raise Unsupported("pointer compare")
         if a[0] == "pint" or b2[0] == "pint": raise Unsupported("ptrtoint compare")
         if pred[0] == "s":
@@ -577,7 +577,21 @@ class E1:
                         return [(path.lo, path.hi, res)]
             for t in (a, b2):
                 if not is_c(t):
-                    if ubound(t, path.lo, path.hi) >= (1 << 63): raise Unsupported("signed compare of a possibly negative term")
+                    # the sign is read at the width of the comparison (an i8 compare of a raw byte sees bit 7)
+                    if ubound(t, path.lo, path.hi) >= (1 << (cw - 1)):
+                        if lbound(t, path.lo, path.hi) >= (1 << (cw - 1)) and is_c(b2 if t is a else a):
+                            # negative on the whole interval: against a non-negative constant the answer is fixed; against a negative one
+                            # both are compared as unsigned numbers of that width (the order is the same among negatives)
+                            other = sb2 if t is a else sa
+                            if other is not None and other >= 0:
+                                res = pred in ("slt", "sle") if t is a else pred in ("sgt", "sge")
+                                return [(path.lo, path.hi, res)]
+                            pred_u = "u" + pred[1:]
+                            cu = (b2 if t is a else a)[1] & ((1 << cw) - 1)
+                            if t is a: return self.split(a, pred_u, cu, path) if monotone(a, path.lo, path.hi) else self._range_cmp(a, pred_u, cu, path)
+                            flip = {"ult": "ugt", "ule": "uge", "ugt": "ult", "uge": "ule"}[pred_u]
+                            return self.split(b2, flip, cu, path) if monotone(b2, path.lo, path.hi) else self._range_cmp(b2, flip, cu, path)
+                        raise Unsupported("signed compare of a possibly negative term")
             neg_const = (sb2 is not None and sb2 < 0) or (sa is not None and sa < 0)
             if neg_const:
                 # term >= 0 > negative constant
@@ -598,6 +612,18 @@ class E1:
             flip = {"ult": "ugt", "ule": "uge", "ugt": "ult", "uge": "ule", "eq": "eq", "ne": "ne"}[pred]
             return self.split(b2, flip, a[1], path)
         raise Unsupported("compare of two non-constant terms")
+
+    def _range_cmp(self, t, pred, cst, path):
+        u = ubound(t, path.lo, path.hi); l = lbound(t, path.lo, path.hi)
+        if pred == "ult" and u < cst: return [(path.lo, path.hi, True)]
+        if pred == "ult" and l >= cst: return [(path.lo, path.hi, False)]
+        if pred == "ule" and u <= cst: return [(path.lo, path.hi, True)]
+        if pred == "ule" and l > cst: return [(path.lo, path.hi, False)]
+        if pred == "ugt" and l > cst: return [(path.lo, path.hi, True)]
+        if pred == "ugt" and u <= cst: return [(path.lo, path.hi, False)]
+        if pred == "uge" and l >= cst: return [(path.lo, path.hi, True)]
+        if pred == "uge" and u < cst: return [(path.lo, path.hi, False)]
+        raise Unsupported("compare of a non-monotone term not decided by its range")
 
     def branch(self, fn, b, i, env, args, path):
         b = getattr(b, "orig", b)
